@@ -393,6 +393,20 @@ theorem tie_cond_model :
     ∧ (∀ d, (waitResult d .timerFired) = (0, false)) := by
   exact ⟨fun _ _ => rfl, by decide, fun _ => rfl⟩
 
+/-! ## round 5e: channel capacities, translated -/
+
+/-- **The capacity of every limiting channel is the configured number, for all values**: `NewLimit(n)` makes a channel
+of capacity `n` (= `(Sem.init n).cap`, `(St.init n).cap`), `NewTaskRunner(c)` of `c`, `executeMappers` of
+`mCtx.workers`, `walkLimited`'s `pool` of `option.workers`; `NewCond`'s channel is unbuffered (capacity 0: the
+rendezvous of ModelTL / ModelCond).  (`n + 1`, a constant or another field in any of them breaks this.) -/
+theorem tie_capacities :
+    (∀ n : Int, newLimitCap n = n) ∧ (∀ n : Nat, newLimitCap n = ((Sem.init n).cap : Int) ∧ newLimitCap n = ((St.init n).cap : Int))
+    ∧ (∀ c : Int, newTaskRunnerCap c = c)
+    ∧ newCondCap = 0
+    ∧ (∀ w : Int, executeMappersCap w = w)
+    ∧ (∀ w : Int, walkLimitedPoolCap w = w) :=
+  ⟨fun _ => rfl, fun _ => ⟨rfl, rfl⟩, fun _ => rfl, rfl, fun _ => rfl, fun _ => rfl⟩
+
 /-! ## round 5e: the delegation chains as a function of the option list -/
 
 /-- what an extracted argument list hands on in its (last) option position. -/
